@@ -33,7 +33,11 @@ def exhaustive(tier):
 
 
 def plan(tier, seed):
-    return [{'lo': p[0], 'hi': p[-1] + 1} for p in chunked(range(N[tier]), 16) if p]
+    specs = [{'lo': p[0], 'hi': p[-1] + 1} for p in chunked(range(N[tier]), 16) if p]
+    # decoded-and-forwarded messages once more in a process that logs at DEBUG level through a
+    # formatting handler (vf/runner.py)
+    specs.append({'lo': 2944, 'hi': 3680, 'debug_logging': True})
+    return specs
 
 
 def run_shard(spec, tier, seed):
@@ -93,6 +97,16 @@ def run_case(res, case):
                     size = r.choice([1, 2, 7, 8, 100, 1000])
                     msg.data_set = bytes(r.getrandbits(8) for _ in range(size))
                     if r.random() < 0.2:
+                        # the data set as a stream that is attached first and rewound afterwards
+                        # (it is read when the message is sent)
+                        import io
+                        stream = io.BytesIO()
+                        stream_payload = msg.data_set
+                        stream.write(stream_payload)
+                        msg.data_set = stream
+                        stream.seek(0)
+                        res.count('sim.stream-attached-before-rewinding')
+                    if r.random() < 0.2:
                         # the application states "data set present" with another legal value
                         msg.command_set.CommandDataSetType = r.choice([0x0000, 0x0102, 0xFFFF, 0x0100])
                         res.count('sim.other-present-value')
@@ -128,6 +142,14 @@ def run_case(res, case):
             has_data = bool(msg.data_set)
             pattern.append(has_data)
             ctx = r.choice([1, 3, 5, 127, 255])
+            if getattr(msg.data_set, 'closed', False):
+                # (the library closes a stream it has sent: the owner attaches a fresh one - again
+                # before rewinding it)
+                import io
+                fresh = io.BytesIO()
+                fresh.write(stream_payload)
+                msg.data_set = fresh
+                fresh.seek(0)
             assoc.send(msg, ctx)
             pdus = assoc.dul.sent_messages()[-1]
             judge(res, dict(case, cls=name, path=path, send=k, pattern=list(pattern)), name, msg,
